@@ -321,10 +321,11 @@ func (c *cubicSender) SetMaxDatagramSize(s protocol.ByteCount) {
 	if s < c.maxDatagramSize {
 		panic(fmt.Sprintf("congestion BUG: decreased max datagram size from %d to %d", c.maxDatagramSize, s))
 	}
-	cwndIsMinCwnd := c.congestionWindow == c.minCongestionWindow()
 	c.maxDatagramSize = s
-	if cwndIsMinCwnd {
-		c.congestionWindow = c.minCongestionWindow()
+	// The minimum congestion window grows with the datagram size.
+	// Make sure the congestion window doesn't end up below it.
+	if minCwnd := c.minCongestionWindow(); c.congestionWindow < minCwnd {
+		c.congestionWindow = minCwnd
 	}
 	c.pacer.SetMaxDatagramSize(s)
 }
